@@ -8,14 +8,16 @@ grammar.  A witness is attributed to its mechanism by the kinds of the two items
   literal/within-word     literal_text_accepted_by_subword_item
 Part 2 (execution): the script of the `||` grammar against the script of its `|` variant in real
 bash on the same command lines: the same lines are matched (exit status), every candidate of the
-`||` script is a candidate of the `|` script, and the `||` script offers something whenever the `|`
-script does.  A difference is attributed to the mechanism Part 1 found in either automaton (or to
+`||` script is a candidate of the `|` script, the `||` script offers something whenever the `|`
+script does, and every candidate of the `|` script that the `||` script does not offer is one that the
+extracted Spec/Undercut.v lists as undercut by a strictly earlier level (Props/C09c.v proves exactly
+this at the level of the specification and, through C01, of the script).  A difference is attributed to the mechanism Part 1 found in either automaton (or to
 the same-text mechanism inside a within-word automaton); anything else is a violation."""
 import os
 import time
 from concurrent.futures import ThreadPoolExecutor
 
-from .. import bashrun, build, gen, impl, model, mspec, paths, report, sexp
+from .. import bashrun, build, coqcheck, gen, impl, model, mspec, paths, report, sexp
 
 MANIFEST = dict(
     text=('Spec/Ambig.v: `unambiguous d` (no state with two outgoing literal/within-word items that read a common word and differ '
@@ -27,11 +29,27 @@ MANIFEST = dict(
           'the same command lines), '
           'C09_unambiguous (outside the known mechanisms), C09_fallback_transparent_spec (for the specification Spec/Meaning.v and '
           'the model of the level pass, replacing every || by | changes neither the matched lines nor, up to levels, the expected '
-          'items), C09_candidates_monotone_partial. The transparency/monotonicity statements for the compiled automaton and the '
-          'script are only stated. The implementation is decided directly: extracted Ambig.find on Rust\'s minimised '
+<<<<<<< HEAD
+          'items), C09_candidates_monotone_partial; Props/C09c.v: C09_fallback_transparent_complete and C09_candidates_monotone_spec '
+          '(every required/allowed candidate of the | variant at a cursor position is one of the || grammar unless Spec/Undercut.v '
+          'lists it as undercut by a strictly earlier level, on both tiers: || branches and pieces inside a word), '
+          'C09_undercut_meaning, and C09_candidates_monotone_script (the same for run_from Repaired on the tables of the two '
+          'grammars, by transfer through C01_bash_meaning_mixed). The implementation is decided directly: extracted Ambig.find on Rust\'s minimised '
           'automaton of every generated grammar (biased to || branches and call variants starting with the same literal, within-word '
           'expressions repeated with permuted alternatives or through definitions), and the || script against the | script in real '
-          'bash (same matched lines, candidates monotone).'),
+          'bash (same matched lines, candidates monotone in both directions with the undercut exception computed by the extracted '
+          'specification).'),
+=======
+          'items), C09_candidates_monotone_partial. Props/C09b.v, on the automata Driver.compile_valid builds: '
+          'C09_fallback_transparent_compiled (the automaton of a grammar and of its | variant accept the same item words up to levels and '
+          'descriptions, match the same typed command lines and expect the same items after them; outside the known mechanisms the walk is '
+          'unique) and C09_unambiguous_compiled (grammar side: two readings of the same typed words have the same continuations). '
+          'The implementation is decided directly: extracted Ambig.find on Rust\'s minimised '
+          'automaton of every generated grammar (biased to || branches and call variants starting with the same literal, within-word '
+          'expressions repeated with permuted alternatives or through definitions), and the || script against the | script in real '
+          'bash (same matched lines, candidates monotone); and Rust\'s minimised automata of g and of bar(g), levels and descriptions erased, '
+          'are both judged against the normal form of g\'s validated tree by the proved judge Spec.Lang.equiv_dfa_expr.'),
+>>>>>>> wp-regex
     design='6 C09',
     technique='Coq-proved decision procedure run on the implementation\'s automaton + differential execution of || vs | scripts in real bash')
 
@@ -153,6 +171,42 @@ def witness_class(dfa_sx, wit, grammar_text):
     return None
 
 
+def norm_expr(e):
+    """CheckBar.norm on a CHECK tree: levels := 0, descriptions := none, || := |."""
+    k = e[0]
+    if k == 'lit':
+        return ['lit', e[1], '-', '0', e[4]]
+    if k == 'nt':
+        return ['nt', e[1], '0', e[3]]
+    if k == 'cmd':
+        return ['cmd', e[1], e[2], '0', e[4]]
+    if k in ('seq', 'alt', 'fb'):
+        return ['alt' if k == 'fb' else k, e[1]] + [norm_expr(c) for c in e[2:]]
+    if k in ('opt', 'many'):
+        return [k, e[1], norm_expr(e[2])]
+    if k == 'dd':
+        return ['dd', e[1], e[2], norm_expr(e[3])]
+    if k == 'sub':
+        return ['sub', '0', e[2], norm_expr(e[3])]
+    return e
+
+
+def erase_dfa(d):
+    """levels := 0, descriptions := none on the inputs of an automaton and of its within-word automata."""
+    if d[0] != 'dfa':
+        return d
+    def ei(i):
+        if i[0] == 'lit':
+            return ['lit', i[1], '-', '0']
+        if i[0] in ('sub', 'cmd', 'compadd'):
+            return [i[0], i[1], '0']
+        return i
+    return d[:4] + [['inputs'] + [ei(i) for i in d[4][1:]], ['subdfas'] + [erase_dfa(x) for x in d[5][1:]]]
+
+
+ERASED_FUEL = 400000
+
+
 def subword_same_text(dfa_sx):
     """Mechanism predicate: some state of a within-word automaton has two outgoing literal items
     with equal text and different targets."""
@@ -182,16 +236,29 @@ def nontrivial_dfa(dfa_sx):
     return False
 
 
+def undercut_request(expr_text, outs, wb, queries):
+    """Spec/Undercut.v (extracted): per query, the candidates of the || grammar withheld because a strictly earlier level
+    has a candidate extending the prefix"""
+    return 'undercut %s %s %s %s' % (expr_text, sexp.quote(wb), mspec.env_sx(outs), mspec.q_sx(queries))
+
+
 def run(ctx, res):
     with build.Lock():
         exe = build.harness()
+        # the second half of the property as theorems (specification level and script level): Props/C09c.v
+        extra = coqcheck.check_property('C09c')
+    if not extra['ok']:
+        res.violations.append(report.Violation('proof obligations of C09c (candidates monotone, || transparent at the cursor) no longer check',
+                                               dict(kind='proof-obligation', errors=extra['errors'][:5]), found_input=False))
+    res.extra['theorems_C09c'] = extra['theorems']
     rng = ctx['rng']
     quick = ctx['tier'] == 'quick'
     budget = float(os.environ.get('VERIF_C09_BUDGET', 110 if quick else 1200))
     n_dec = 1000 if quick else 40000
     t0 = time.time()
     counters = dict(grammars=0, rejected=0, decided_none=0, decided_some=0, model_error=0, bash_grammars=0, bash_pairs=0,
-                    skipped_c01_mechanism=0, skipped_ambiguous=0, unreferenced_subdfa=0, bar_variant_rejected=0)
+                    skipped_c01_mechanism=0, skipped_ambiguous=0, unreferenced_subdfa=0, bar_variant_rejected=0,
+                    bar_candidates_judged=0, bar_candidates_undercut=0, undercut_skipped_greedy_shadow=0, spec_monotone_checked=0)
     found = {CLASS_LL: 0, CLASS_SS: 0, CLASS_LS: 0}
     # ---- Part 1: the decision on Rust's automaton
     witnesses = [
@@ -262,6 +329,37 @@ def run(ctx, res):
     order = [i for i in order if cases[i][2] is not None] + \
             [i for i in order if cases[i][2] is None and has_fb(i) and verdict[i] is None] + \
             [i for i in order if cases[i][2] is None and has_fb(i) and verdict[i] is not None]
+    # ---- Part 3 (tie for C09_fallback_transparent_compiled): Rust's minimised automata of g and of
+    # bar(g), levels and descriptions erased, both against the normal form of g's validated tree
+    # (the proved judge Spec.Lang.equiv_dfa_expr; denotes (norm e) = erased language, C09_denotes_norm)
+    sel3 = [i for i in order if has_fb(i)][:(300 if quick else 6000)]
+    b3 = [gen.show_grammar(bar_grammar(cases[i][0])).encode('latin-1') for i in sel3]
+    d3 = impl.dump(exe, b3, ['check', 'min'], ['bash'])
+    ereq, eidx = [], []
+    for i, bt, db in zip(sel3, b3, d3):
+        a, b = dumps[i]['bash'], db['bash']
+        if not b.get('MIN', '').startswith('(ok ') or '(unreferenced)' in b['MIN']:
+            counters['bar_variant_rejected'] += 1
+            continue
+        ne = sexp.dump(norm_expr(mspec.check_expr(a['CHECK'])))
+        for st in (a, b):
+            ereq.append('equiv %s %s %d' % (sexp.dump(erase_dfa(sexp.parse(st['MIN'])[1])), ne, ERASED_FUEL))
+        eidx.append((i, bt, a, b))
+    eout = model.run(ereq)
+    for n, (i, bt, a, b) in enumerate(eidx):
+        for k, which in ((0, 'the || grammar'), (1, 'its | variant')):
+            o = eout[2 * n + k]
+            res.evaluations += 1
+            counters['erased_equiv'] = counters.get('erased_equiv', 0) + 1
+            if o == '(equal)':
+                res.traces_validated += 1
+                continue
+            why = ('the minimised automaton of %s, levels and descriptions erased, does not accept the erased language of the '
+                   '|| grammar: %s' % (which, o[:300]))
+            res.violations.append(report.Violation(
+                'C09: ' + why, dict(grammar=texts[i].decode('latin-1'), bar_variant=bt.decode('latin-1'), kind='spec-judgement',
+                                    why=why, minimised_dfa=a['MIN'][:3000], minimised_dfa_bar_variant=b['MIN'][:3000]),
+                found_input=o.startswith('(differ')))
     pos = 0
     chunk = 24 if quick else 64
     longest = 0.0
@@ -299,6 +397,9 @@ def run(ctx, res):
         fl = model.run([mspec.meaning_request(e[k], cases[p[0]][1].outs, mspec.DEFAULT_WB, q)
                         for p, e, q in zip(prep, exprs, queries) for k in (0, 1)])
 
+        # the exception of the second half, computed by the extracted specification on the || grammar's validated tree
+        ul = model.run([undercut_request(e[0], cases[p[0]][1].outs, mspec.DEFAULT_WB, q) for p, e, q in zip(prep, exprs, queries)])
+
         def work(j):
             (i, bt, a, b), q = j
             r1, _ = bashrun.run_queries(str(sexp.parse(a['SCRIPT'])), q, timeout=600)
@@ -311,6 +412,7 @@ def run(ctx, res):
             f1 = mspec.parse_meaning(fl[2 * n]) if not fl[2 * n].startswith('(drivererror') else None
             f2 = mspec.parse_meaning(fl[2 * n + 1]) if not fl[2 * n + 1].startswith('(drivererror') else None
             w2 = sexp.parse(amb2[n]) if not amb2[n].startswith('(drivererror') else ['none']
+            und = None if ul[n].startswith('(drivererror') else [set(str(c) for c in r) for r in sexp.parse(ul[n])]
             cls = verdict[i]
             if cls is None and w2[0] == 'some':
                 cls = witness_class(sexp.parse(b['MIN'])[1], w2, bt.decode('latin-1'))
@@ -340,6 +442,23 @@ def run(ctx, res):
                     why = 'the || script offers %r which the | script does not offer' % sorted(set(x['reply']) - set(y['reply']))
                 elif y['reply'] and not x['reply']:
                     why = 'the | script offers %r, the || script offers nothing although no earlier branch has a candidate' % sorted(set(y['reply']))
+                elif und is not None:
+                    # second half of the property: what the | script offers and the || script does not must be undercut by an
+                    # earlier level (Spec/Undercut.v); also the specification itself is re-judged (C09_candidates_monotone_spec)
+                    if f1[k][0] is not None and f2[k][0] is not None:
+                        counters['spec_monotone_checked'] += 1
+                        if not (f2[k][0][0] <= (f1[k][0][0] | und[k])):
+                            why = ('specification-level monotonicity fails (theorem C09_candidates_monotone_spec contradicted by the '
+                                   'extracted functions): %r' % sorted(f2[k][0][0] - f1[k][0][0] - und[k]))
+                    missing = set(y['reply']) - set(x['reply'])
+                    counters['bar_candidates_judged'] += len(set(y['reply']))
+                    counters['bar_candidates_undercut'] += len(missing & und[k])
+                    if not why and missing - und[k]:
+                        if fa['greedy_shadow'] or fb_['greedy_shadow']:
+                            counters['undercut_skipped_greedy_shadow'] += 1
+                        else:
+                            why = ('the | script offers %r which the || script does not offer although no candidate of an earlier '
+                                   'level extends the typed prefix (undercut = %r)' % (sorted(missing - und[k]), sorted(und[k])))
                 if not why:
                     res.traces_validated += 1
                     continue
